@@ -8,6 +8,10 @@ from checks import lach_common as lc
 def run(c):
     ex = lc.run_exhaustive(c, c.pick(["x31lazy_6"], ["x31lazy_7_full", "x31_8_full", "x11_8_full"]), "frame-rule")
     c.guard("model_states", ex["total"]["states"])
+    # DAGs found by TLC simulation on which a mis-stated frame rule (roots registered only under their final frame, first events
+    # allowed to climb, cheaters counted in forkless cause) would assign or accept other frames
+    cor = lc.run_exhaustive(c, ["corpus:frames"], "frame-rule", orders=3)
+    c.guard("corpus_dags", cor["total"].get("states", 0))
     res = lc.run_profile(c, "c04", c.pick(21, 210), "frame-rule")
     st = res["stats"]
     c.guard("clone_rejected", st.get("clone_rejected", 0))
